@@ -195,9 +195,26 @@ func ProfileFromJSON(b []byte) (*Profile, error) {
 func (w *World) buildWorkload() {
 	p := w.prof
 	r := core.NewRand(core.Mix(w.sim.Seed, 0x17e35))
+	var lastPre *Item
 	for k := 0; k < p.Items; k++ {
 		shape := p.Shapes[r.Intn(len(p.Shapes))]
 		it := w.makeItem(1000+k, shape)
+		if shape == 2 {
+			if lastPre != nil && r.Chance(1, 3) {
+				// the same TBS under another issuer key: a distinct entry
+				c := corpus.Get()
+				e := *lastPre.Entry
+				e.IssuerKeyHash = c.Inter[1].SPKIHash()
+				e.PreCertificate = c.Leaf(lastPre.corpusIdx, corpus.LeafOpts{Precert: true, Issuer: c.Inter[1]})
+				e.Issuers = [][]byte{c.Inter[1].DER, c.Inter[0].DER}
+				it.Entry = &e
+				it.Key = independentCacheKey(&e)
+				lastPre = nil
+				w.sim.Probe("workload.precert-twin")
+			} else {
+				lastPre = it
+			}
+		}
 		it.ID = k
 		w.addItem(it)
 	}
